@@ -61,3 +61,28 @@ contract('pyx12.segment.Segment.set',
          options={'abstract_vec_split': True},
          serves=['C17', 'C10'],
          note='bounded in shape: segments of up to 3 elements x 2 components, designators up to element 05 / component 4')
+
+_MAXTEXT = 8 if os.environ.get('VERIF_TIER', 'quick') == 'thorough' else 6
+
+contract('pyx12.segment.Segment.__init__',
+         params={'self': Obj('pyx12.segment.Segment'), 'seg_str': Str, 'seg_term': StrN(1), 'ele_term': StrN(1),
+                 'subele_term': StrN(1), 'repetition_term': StrN(1)},
+         split_len={'seg_str': _MAXTEXT},
+         returns=NoneT,
+         requires=['len(seg_str) <= %d' % _MAXTEXT],
+         ensures=['(self.seg_id, view(self)) == spec_parse(seg_str, seg_term, ele_term, subele_term)',
+                  'seg_inv(self)', 'self.seg_term == seg_term and self.ele_term == ele_term and self.subele_term == subele_term'],
+         raises={},
+         serves=['C01', 'C12'],
+         note='bounded: segment texts of at most %d characters (any characters, any one-character delimiters)' % _MAXTEXT)
+
+contract('pyx12.segment.Segment.format',
+         type_cases=SHAPE_CASES,
+         params={'seg_term': Opt(StrN(1)), 'ele_term': Opt(StrN(1)), 'subele_term': Opt(StrN(1))},
+         returns=Str,
+         requires=['seg_inv(self)', 'self.seg_id is not None', 'seg_term is not None and ele_term is not None and subele_term is not None'],
+         ensures=['result == spec_format(self.seg_id, view(self), seg_term, ele_term, subele_term)',
+                  'view(self) == old(view(self))'],
+         raises={},
+         serves=['C01', 'C12'],
+         note='bounded in shape (see SHAPES); explicit delimiters')
